@@ -103,7 +103,64 @@ Section Zip.
       split; [rewrite zip_cons_length; lia|].
       cbn [length] in *. apply zip_cons_cols; auto; lia.
   Qed.
+
+  (* ---------------------------------------------------------------- ragged transpose, zips with a function *)
+  Definition pick (j : nat) (row : list A) : list A := match nth_error row j with Some x => [x] | None => [] end.
+
+  Lemma zip_cons_nth : forall xs yss j, nth j (zip_cons xs yss) [] = pick j xs ++ nth j yss [].
+  Proof.
+    unfold pick. induction xs as [|x t IH]; intros yss j.
+    - cbn [zip_cons]. destruct j; reflexivity.
+    - destruct yss as [|ys yss'].
+      + cbn [zip_cons]. revert j. generalize (x :: t). induction l as [|a l IHl]; intros j; [destruct j; reflexivity|].
+        destruct j as [|j]; [reflexivity|]. cbn [map nth nth_error]. rewrite IHl. destruct j; reflexivity.
+      + cbn [zip_cons]. destruct j as [|j]; [reflexivity|]. cbn [nth nth_error]. apply IH.
+  Qed.
+
+  (* transpose of ANY (ragged) list of rows: column j is made of the j-th elements of the rows that are
+     long enough, in row order; there are as many columns as the longest row has elements *)
+  Theorem transpose_ragged : forall xss,
+    length (sl_transpose xss) = maxlen xss /\
+    (forall j, nth j (sl_transpose xss) [] = flat_map (pick j) xss) /\
+    Forall (fun col => col <> []) (sl_transpose xss).
+  Proof.
+    intros xss. split; [apply transpose_length|]. split.
+    - induction xss as [|xs t IH]; intros j; [destruct j; reflexivity|].
+      cbn [sl_transpose flat_map]. now rewrite zip_cons_nth, IH.
+    - induction xss as [|xs t IH]; [constructor|]. cbn [sl_transpose].
+      revert IH. generalize (sl_transpose t). clear. induction xs as [|x r IHr]; intros yss H; [exact H|].
+      destruct yss as [|ys yss']; cbn [zip_cons].
+      + apply Forall_forall. intros c Hc. apply in_map_iff in Hc as (y & <- & _). discriminate.
+      + inversion H; subst. constructor; [discriminate|auto].
+  Qed.
+
+  (* ziplongest with a function reduces every (non-empty) batch of ziplongest from the left *)
+  Theorem ziplongest_with_folds : forall (f : A -> A -> A) xss d,
+    sl_ziplongest_with f xss =
+      map (fun b => match sl_fold f b with Some r => r | None => d end) (sl_ziplongest xss) /\
+    length (sl_ziplongest_with f xss) = maxlen xss.
+  Proof.
+    intros f xss d. unfold sl_ziplongest_with, sl_ziplongest.
+    destruct (transpose_ragged xss) as (L & _ & NE).
+    assert (E : flat_map (fun b => match sl_fold f b with Some r => [r] | None => [] end) (sl_transpose xss) =
+                map (fun b => match sl_fold f b with Some r => r | None => d end) (sl_transpose xss)).
+    { clear L. revert NE. generalize (sl_transpose xss). induction l as [|b l IH]; intros NE; [reflexivity|].
+      inversion NE as [|? ? Hb NE']; subst. destruct b as [|x b']; [congruence|].
+      cbn [flat_map map sl_fold app]. now rewrite (IH NE'). }
+    split; [exact E|]. now rewrite E, map_length.
+  Qed.
+
+  (* zip with a function is zip followed by the function on every pair *)
+  Theorem zip_with_is_zip_then_apply : forall (f : A -> A -> A) xs ys d,
+    sl_zip_with f xs ys = map (fun row => f (nth 0 row d) (nth 1 row d)) (sl_zip [xs; ys]) /\
+    length (sl_zip_with f xs ys) = Nat.min (length xs) (length ys).
+  Proof.
+    intros f xs ys d. destruct (zip_binary_combine xs ys) as [E L]. unfold sl_zip_with. split.
+    - rewrite E, map_map. reflexivity.
+    - rewrite map_length, combine_length. reflexivity.
+  Qed.
 End Zip.
+Arguments pick {A} j row.
 
 (* ------------------------------------------------------------------ cartesian product *)
 Section Cartesian.
